@@ -206,8 +206,8 @@ def builtin_signature_lemma():
 
 def units():
     from . import c01exec
-    from . import c02assign, c01emit, c01lower
-    return units_steploop() + units_single_step() + c01exec.units() + c02assign.units() + c01emit.units() + c01lower.units() + [LemmaUnit("lemma:builtin-signatures", builtin_signature_lemma),FunctionUnit(ResolveArgs()), FunctionUnit(ImplementLoops()),
+    from . import c02assign, c01emit, c01lower, c01driver
+    return units_steploop() + units_single_step() + c01exec.units() + c02assign.units() + c01emit.units() + c01lower.units() + c01driver.units() + [LemmaUnit("lemma:builtin-signatures", builtin_signature_lemma),FunctionUnit(ResolveArgs()), FunctionUnit(ImplementLoops()),
                                FunctionUnit(ExecAssignNoSpuriousException())]
 
 
